@@ -213,7 +213,155 @@ def _arch_job(job):
         del mm.get_instruction
     except AttributeError:
         pass
+    # the whole pipeline through the CLI entry point (parse, semantics, balancing, dependency graph,
+    # critical path, LCD search, report) on real instruction lines that match the entries
+    try:
+        isa = mm.get_ISA().lower()
+        lines = _pipeline_lines(arch, isa, loaded, analyse, 0)
+        from osaca.parser import ParserAArch64, ParserX86ATT
+
+        parser = ParserX86ATT() if isa == "x86" else ParserAArch64()
+        # a synthesised memory variant the parser does not accept is no instruction (the parsers are C09/C10's
+        # subject); the own rendering of an entry must parse
+        keep = []
+        for l in lines:
+            try:
+                parser.parse_line("\t" + l[2].strip(), 1)
+                keep.append(l)
+            except Exception:  # noqa
+                if l[0] == "own":
+                    keep.append(l)
+        res["pipeline_unparsable_variants"] = len(lines) - len(keep)
+        lines = keep
+        wd = os.path.join(tlc.WORK, "scratch")
+        os.makedirs(wd, exist_ok=True)
+        res["pipeline"], res["pipeline_runs"] = _pipeline_crashes(arch, lines, wd, (mm, sem, parser))
+        res["pipeline_lines"] = len(lines)
+        res["pipeline_odd"] = sum(1 for f in loaded if f.latency is None or f.throughput is None or not f.port_pressure)
+    except Exception as ex:  # noqa - machinery
+        res["pipeline_machinery"] = "%s @%s" % (pc.exc_text(ex), pc.exc_where(ex))
     return res
+
+
+# ---------------------------------------------------------------------------------- whole pipeline
+def _pipeline_lines(arch, isa, loaded, analyse, seed):
+    """Instruction lines for the whole-pipeline runs: the own rendering of an entry and its memory
+    variants (one register operand replaced by a memory reference: analysed by composing the entry
+    with the load/store tables when the model has no direct entry).  All entries that lack
+    throughput, latency or port pressure, and one entry per distinct shape of the others."""
+    import random
+    from harness import lookup_common as lk
+
+    rnd = random.Random("%s|%d" % (arch, seed))
+    out, seen = [], set()
+    memkind = lk.K("mem", b="gpr" if isa == "x86" else "x", o="imd", i="", sc="1", pre="f", post="f")
+    for f in loaded:
+        odd = f.latency is None or f.throughput is None or not f.port_pressure
+        kinds = []
+        try:
+            for op in (f.operands or []):
+                k = lk.project_entry_operand(isa, op)
+                if k is None:
+                    raise ValueError("operand outside the vocabulary")
+                w = lk.written_for(isa, k, rnd)
+                if isa == "aarch64" and w["k"] == "mem" and (w["pre"] == "t" or w["post"] == "t"):
+                    # write-back addressing exists with an immediate only: [xN, #imm]! and [xN], #imm
+                    # (a wildcard entry would otherwise be instantiated to something that is no instruction)
+                    w = dict(w, i="", sc="1", o="imd" if w["pre"] == "t" else w["o"])
+                kinds.append(w)
+        except ValueError:
+            continue
+        shape = (odd, isinstance(f.port_pressure, dict), len(f.port_pressure or []), tuple(k["k"] + str(k.get("c", "")) for k in kinds))
+        if not odd and analyse != "all":
+            if shape in seen:
+                continue
+        seen.add(shape)
+        name = str(f.mnemonic).lower()
+        try:
+            out.append(("own", name, lk.render_line(isa, name, kinds, rnd)))
+        except Exception:  # noqa - a kind that cannot be written
+            continue
+        if any(k["k"] == "mem" for k in kinds):
+            continue
+        regpos = [i for i, k in enumerate(kinds) if k["k"] == "reg"]
+        for pos in regpos[:1] + regpos[-1:] if len(regpos) > 1 else regpos:
+            kk = list(kinds)
+            kk[pos] = memkind
+            try:
+                out.append(("mem%d" % pos, name, lk.render_line(isa, name, kk, rnd)))
+            except Exception:  # noqa
+                pass
+    return out
+
+
+def _cli_analyse(arch, text, extra, workdir):
+    import io
+    import osaca.osaca as oo
+
+    path = os.path.join(workdir, "c15-pipeline-%d.s" % os.getpid())
+    with open(path, "w") as fh:
+        fh.write(text)
+    parser = oo.create_parser()
+    args = parser.parse_args(["--arch", arch, "--lcd-timeout", "1", "--ignore-unknown"] + list(extra) + [path])
+    oo.check_arguments(args, parser)
+    out = io.StringIO()
+    try:
+        oo.run(args, output_file=out)
+    finally:
+        args.file.close()
+        os.unlink(path)
+    return out.getvalue()
+
+
+def _api_pipeline(arch, line, fixed, tools):
+    """The stages of osaca.osaca.inspect on one line with models loaded once (narrowing only)."""
+    from osaca.frontend import Frontend
+    from osaca.semantics import KernelDG
+
+    mm, sem, parser = tools
+    kernel = parser.parse_file("\t" + line + "\n")
+    sem.add_semantics(kernel)
+    if not fixed:
+        sem.assign_optimal_throughput(kernel)
+        sem.assign_optimal_throughput(kernel)
+    dg = KernelDG(kernel, parser, mm, sem, 1, False)
+    fe = Frontend("c15.s", arch=arch)
+    fe.full_analysis(kernel, dg, ignore_unknown=True, lcd_warning=dg.timed_out)
+    fe.full_analysis_dict(kernel, dg, lcd_warning=dg.timed_out)
+
+
+def _pipeline_crashes(arch, lines, workdir, tools, chunk=20):
+    """Run the CLI analysis (default and --fixed) on chunks of lines.  When a chunk raises, every line
+    of it goes through the same stages on its own (models loaded once); the lines that raise there
+    are the witnesses, otherwise the chunk as a whole is."""
+    import warnings
+
+    res, nrun = [], 0
+    for i in range(0, len(lines), chunk):
+        grp = lines[i:i + chunk]
+        text = "".join("\t" + l[2].strip() + "\n" for l in grp)
+        for extra in ((), ("--fixed",)):
+            nrun += 1
+            try:
+                with warnings.catch_warnings():
+                    warnings.simplefilter("ignore")
+                    rep = _cli_analyse(arch, text, extra, workdir)
+                for l in grp:
+                    if l[2].strip() not in rep:
+                        res.append({"lines": [list(l)], "opts": list(extra), "err": "the instruction line is not in the report", "where": "report"})
+                continue
+            except Exception as ex:  # noqa
+                err = pc.exc_text(ex), pc.exc_where(ex)
+            single = []
+            for l in grp:
+                try:
+                    with warnings.catch_warnings():
+                        warnings.simplefilter("ignore")
+                        _api_pipeline(arch, l[2].strip(), bool(extra), tools)
+                except Exception as ex:  # noqa
+                    single.append({"lines": [list(l)], "opts": list(extra), "err": pc.exc_text(ex), "where": pc.exc_where(ex)})
+            res += single or [{"lines": [list(l) for l in grp], "opts": list(extra), "err": err[0], "where": err[1]}]
+    return res, nrun
 
 
 _DBCHECK = re.compile(r"\((\d+)/(\d+)\) of instruction forms have no (throughput value|latency value|port pressure)")
@@ -318,6 +466,21 @@ def r3_shipped(run, tier):
                              res["arch"], rec["sig"][:120], rec["err"], rec.get("stage", "lookup")),
                          {"arch": res["arch"], "entry": rec["sig"], "error": rec["err"]})
         run.note("analysis_path_entries_%s" % res["arch"], len(res["analysis"])) if res["analysis"] else None
+        if res.get("pipeline_machinery"):
+            raise RuntimeError("whole-pipeline scenario failed for %s: %s" % (res["arch"], res["pipeline_machinery"]))
+        if "pipeline" in res:
+            run.add_eval(res["pipeline_lines"])
+            run.add_traces(res["pipeline_runs"])
+            run.note("pipeline_%s" % res["arch"], {"lines": res["pipeline_lines"], "cli_runs": res["pipeline_runs"],
+                                                   "entries_lacking_data": res["pipeline_odd"]})
+            for rec in res["pipeline"]:
+                first = rec["lines"][0]
+                what = "own rendering" if first[0] == "own" else "memory variant (operand %s)" % first[0][3:]
+                run.fail("C15:pipeline-exception:%s:%s:%s:%s:%s" % (res["arch"], first[1], first[0], rec["where"], rec["err"].split(":")[0]),
+                         "%s: osaca --arch %s %s on %s of a shipped entry raises %s at %s" % (
+                             res["arch"], res["arch"], " ".join(rec["opts"]), what, rec["err"], rec["where"]),
+                         {"arch": res["arch"], "lines": [l[2] for l in rec["lines"]], "opts": rec["opts"], "error": rec["err"],
+                          "kind": "pipeline"})
     for arch, found, err in dbres:
         c = {"id": "counts:" + arch, "kind": "counts", "es": per_file[arch]["es"]}
         if err:
